@@ -64,8 +64,13 @@ def roundtrip_clause(mk, Flagger, Strategy, umi, umiq, bc, lib, idxseq, bi):
     return None
 
 
-def length_guard_clause(n):
-    """L3: a header longer than 255 characters is refused (ValueError), otherwise the library name is stored in full."""
+MAX_STORABLE = 254   # BAM stores l_read_name as uint8 *including* the terminating NUL: htslib / pysam refuse names > 254
+
+
+def length_guard_clause(n, store=None):
+    """L3: a header that cannot be stored as a BAM read name (longer than 254 characters) is refused (ValueError),
+    otherwise the library name is kept in full. `store` (replay): callable that stores the name in a real
+    pysam.AlignedSegment and returns what was stored."""
     tr = BDM.TaggedRecord(BDM.TagDefinitions)
     lib = 'x' * n
     tr.tags.update({'Is': 'NS500414', 'RN': '455', 'LY': lib, 'RX': 'ACG'})
@@ -74,11 +79,18 @@ def length_guard_clause(n):
     try:
         fq = tr.asFastq()
     except ValueError:
-        return None if hlen > 255 else 'guard.refused_short_header'
-    if hlen > 255:
+        return None if hlen > MAX_STORABLE else 'guard.refused_short_header'
+    if hlen > MAX_STORABLE:
         return 'guard.long_header_accepted'
     if ('LY:' + lib + ';') not in fq:
         return 'guard.library_truncated'
+    if store is not None:
+        name = fq.split('\n')[0][1:]
+        try:
+            if store(name) != name:
+                return 'guard.stored_name_differs'
+        except Exception:
+            return 'guard.accepted_header_not_storable'
     return None
 
 
